@@ -315,6 +315,29 @@ def run(ctx):
                 ok = False
             if not ok:
                 ctx.violation({'kind': 'complex-operand-loses-its-imaginary-part', 'op': name}, {'operand': str(other)[:40]}, case=None)
+    # a grid held in EXTENDED precision (np.longdouble, e.g. read from a table of that type) is a grid like any other: "all pairs of spectra"
+    if np.dtype(np.longdouble).itemsize > 8:
+        S_ = lentil.radiometry.Spectrum
+        for _ in range(6):
+            w1, v1 = phys_spectrum(rng)
+            w2, v2 = phys_spectrum(rng)
+            fw1, fv1 = np.array([float(x) for x in w1]), np.array([float(x) for x in v1])
+            fw2, fv2 = np.array([float(x) for x in w2]), np.array([float(x) for x in v2])
+            for op in ('add', 'multiply', 'subtract'):
+                for which in ('both', 'left', 'right'):
+                    ctx.case(('extended-precision-grid', op, which, str(w1), str(w2)))
+                    a_ = S_(fw1.astype(np.longdouble) if which in ('both', 'left') else fw1, fv1, waveunit='nm', valueunit=None)
+                    b_ = S_(fw2.astype(np.longdouble) if which in ('both', 'right') else fw2, fv2, waveunit='nm', valueunit=None)
+                    ref = getattr(S_(fw1, fv1, waveunit='nm', valueunit=None), op)(S_(fw2, fv2, waveunit='nm', valueunit=None))
+                    try:
+                        got = getattr(a_, op)(b_)
+                        ok = len(got.wave) == len(ref.wave) and np.allclose(np.asarray(got.wave, dtype=float), ref.wave, rtol=1e-12) and \
+                            np.allclose(np.asarray(got.value, dtype=float), ref.value, rtol=1e-9, atol=1e-12)
+                        err = None
+                    except Exception as ex:
+                        ok, err = False, repr(ex)[:160]
+                    if not ok:
+                        ctx.violation({'kind': 'extended-precision-grid', 'op': op, 'operand': which}, {'error': err}, case=None)
     # operands written in DIFFERENT flux units (the same physical spectrum in photlam and in wlam / flam): the sum, the difference
     # and the quotient describe the same physical spectrum as with both operands in one unit, in either order (conversions: C14)
     nmix = 0
